@@ -111,19 +111,20 @@ def main():
     ap.add_argument('--per-file', type=int, default=8)
     ap.add_argument('--seed', type=int, default=1)
     ap.add_argument('--jobs', type=int, default=4)
+    ap.add_argument('--rerun-survivors', action='store_true', help='re-evaluate every survivor of the stored sweep with the current checks')
     ap.add_argument('--rerun-undetected', action='store_true', help='re-evaluate the survivors of the stored sweep that no check reported')
     ap.add_argument('--out', default='/verif/mutation/sweep.json')
     a = ap.parse_args()
     rnd = random.Random(a.seed)
     jobs = []
     tdirs = [tempfile.mkdtemp(prefix='vf-ms-target-') for _ in range(a.jobs)]
-    if a.rerun_undetected:
+    if a.rerun_undetected or a.rerun_survivors:
         for r in json.load(open(a.out))['mutants']:
-            if r['status'] == 'survivor' and not r.get('detected_by'):
+            if r['status'] == 'survivor' and (a.rerun_survivors or not r.get('detected_by')):
                 lines = open(os.path.join(REPO, r['file'])).read().split('\n')
                 _l, ss = sites(r['file'])
                 for s in ss:
-                    if s[0] == r['line'] - 1 and s[2].strip() == r['old'] and s[3].strip() == r['new']:
+                    if s[0] == r['line'] - 1 and s[2].strip() == r['old'] and s[3].strip() == r['new'] and not any(j[1] == r['file'] and j[2] == s for j in jobs):
                         jobs.append([len(jobs), r['file'], s, None])
     else:
         for path in a.files.split(','):
